@@ -12,9 +12,12 @@ from dataclasses import dataclass, field
 from typing import Any, Callable, Dict, List, Optional
 
 VERIF = os.path.dirname(os.path.dirname(os.path.abspath(__file__)))
-REPLAYS = os.path.join(VERIF, "replays")
-EVIDENCE = os.path.join(VERIF, "evidence")
+# runs against scratch copies (self-test) write their evidence / replays elsewhere
+_OUT = os.environ.get("VERIF_OUT", VERIF)
+REPLAYS = os.path.join(_OUT, "replays")
+EVIDENCE = os.path.join(_OUT, "evidence")
 
+MAX_REPORTED = 8
 EXIT_OK, EXIT_VIOLATION, EXIT_UNDECIDED, EXIT_TOOL = 0, 1, 2, 3
 
 
@@ -113,7 +116,11 @@ class Report:
                 if line not in self.known_hit:
                     self.known_hit.append(line)
                     print(line)
-        for v in new:
+        self.extra["violations_total"] = len(new)
+        shown = new[:MAX_REPORTED]
+        if len(new) > len(shown):
+            print(f"({len(new) - len(shown)} further distinct violations of {self.prop} not listed; see evidence)")
+        for v in shown:
             h = hashlib.sha256(v.signature.encode()).hexdigest()[:10]
             v.path = os.path.join(REPLAYS, f"{self.prop}-{h}.json")
             v.replay.update({"property": self.prop, "signature": v.signature, "summary": v.summary, "repo": repo_root()})
